@@ -145,7 +145,7 @@ func (s *oosmService) OutOfStoreReceive(ctx context.Context, request *protocolty
 	return &protocoltypes.OutOfStoreReceive_Reply{
 		Message:         outOfStoreMessage,
 		Cleartext:       clearPayload,
-		GroupPublicKey:  group.PublicKey,
+		GroupPublicKey:  group.GetPublicKey(),
 		AlreadyReceived: alreadyDecrypted,
 	}, nil
 }
